@@ -707,6 +707,9 @@ _zuc_eia3_16_buffer_avx512(const void *const pKey[NUM_AVX512_BUFS],
 
                 asm_Eia3RemainderAVX512(&T[i], keyStr32, pIn8[i], remainBits);
                 *(pMacI[i]) = T[i];
+#ifdef SAFE_DATA
+                clear_mem(keyStr32, sizeof(keyStr32));
+#endif
         }
 
 #ifdef SAFE_DATA
